@@ -133,7 +133,7 @@
              (else field))))
         (define (finish-row)
           (let ((field (get-field)))
-            (if (and (zero? index) (equal? field ""))
+            (if (and (zero? index) (equal? field "") (not quoted?))
                 ;; empty row, read again
                 (lp acc index #f out)
                 (kons acc index field))))
@@ -141,7 +141,7 @@
           (cond
            ((eof-object? ch)
             (let ((field (get-field)))
-              (if (and (zero? index) (equal? field ""))
+              (if (and (zero? index) (equal? field "") (not quoted?))
                   ;; no data
                   ch
                   (kons acc index field))))
@@ -478,7 +478,13 @@
                         (car ls)))
                   (and (not (string? (car ls)))
                        (not (number? (car ls)))
-                       (not (symbol? (car ls)))))
+                       (not (symbol? (car ls))))
+                  ;; a lone empty field must be quoted, otherwise the
+                  ;; record is an empty line, which parsers skip
+                  (and first?
+                       (null? (cdr ls))
+                       (equal? (car ls) "")
+                       (csv-grammar-quote-char grammar)))
               (csv-write-quoted (car ls) out grammar)
               (display (car ls) out))
           (lp (cdr ls) #f)))
